@@ -1,5 +1,6 @@
 pub mod cache;
 pub mod client;
+pub mod zonestore;
 
 use crate::core::runner::{CheckSpec, Scenario};
 use std::sync::Arc;
@@ -8,6 +9,7 @@ pub fn scenario_by_name(name: &str) -> Option<Arc<dyn Scenario>> {
     let s: Arc<dyn Scenario> = match name {
         "client" => Arc::new(client::ClientScn),
         "cache" => Arc::new(cache::CacheScn),
+        "zone_isolation" => Arc::new(zonestore::IsolationScn),
         _ => return None,
     };
     Some(s)
@@ -19,6 +21,11 @@ pub fn check_spec(property: &str) -> Option<CheckSpec> {
             property: "C15",
             level: "exploration",
             scenarios: vec![(Arc::new(client::ClientScn), 60_000, 3_000_000)],
+        },
+        "C09" => CheckSpec {
+            property: "C09",
+            level: "exploration",
+            scenarios: vec![(Arc::new(zonestore::IsolationScn), 20_000, 1_000_000)],
         },
         "C20" => CheckSpec {
             property: "C20",
